@@ -914,3 +914,116 @@ func genListFns(repo, out string) {
 	}
 	writeIfChanged(filepath.Join(out, "ListFns.v"), b.String())
 }
+
+// ---- archlinux: the backup lines of .PKGINFO ----
+// for _, v := range info.Contents { if v.Type == T1 || v.Type == T2 ... { path := files.F(v.Destination); writeKVPair(buf, "backup", path) } }
+func genBackupFn(repo, out string) {
+	consts := stringConsts(parseFile(filepath.Join(repo, "files/files.go")))
+	f := parseFile(filepath.Join(repo, "arch/arch.go"))
+	c := &trCtx{}
+	body, key := "[]", ""
+	n := 0
+	ast.Inspect(f, func(nd ast.Node) bool {
+		loop, ok := nd.(*ast.RangeStmt)
+		if !ok {
+			return true
+		}
+		// a loop that calls writeKVPair(_, "backup", _)
+		writes := false
+		ast.Inspect(loop, func(m ast.Node) bool {
+			if ce, ok := m.(*ast.CallExpr); ok {
+				if id, ok := ce.Fun.(*ast.Ident); ok && id.Name == "writeKVPair" && len(ce.Args) == 3 {
+					if k, ok := strLit(ce.Args[1]); ok && k == "backup" {
+						writes = true
+					}
+				}
+			}
+			return true
+		})
+		if !writes {
+			return true
+		}
+		n++
+		v, _ := loop.Value.(*ast.Ident)
+		if se, ok := loop.X.(*ast.SelectorExpr); !ok || se.Sel.Name != "Contents" || v == nil || len(loop.Body.List) != 1 {
+			c.fail("the backup loop is not a loop over info.Contents with one statement")
+			return false
+		}
+		is, ok := loop.Body.List[0].(*ast.IfStmt)
+		if !ok || is.Init != nil || is.Else != nil || len(is.Body.List) != 2 {
+			c.fail("the backup loop's body is not: if cond { path := ...; write }")
+			return false
+		}
+		var cond func(e ast.Expr) string
+		cond = func(e ast.Expr) string {
+			switch x := e.(type) {
+			case *ast.ParenExpr:
+				return cond(x.X)
+			case *ast.BinaryExpr:
+				if x.Op == token.LOR {
+					return "(" + cond(x.X) + " || " + cond(x.Y) + ")"
+				}
+				if x.Op == token.EQL {
+					l, ok1 := x.X.(*ast.SelectorExpr)
+					r, ok2 := x.Y.(*ast.SelectorExpr)
+					if ok1 && ok2 && l.Sel.Name == "Type" {
+						if id, ok := l.X.(*ast.Ident); ok && id.Name == v.Name {
+							if val, ok := consts[r.Sel.Name]; ok {
+								return "(seqb (c_typ c) " + coqStr(val) + ")"
+							}
+						}
+					}
+				}
+			}
+			return "(" + c.fail("condition of the backup loop outside the subset") + " : bool)"
+		}
+		cd := cond(is.Cond)
+		as, ok := is.Body.List[0].(*ast.AssignStmt)
+		item := ""
+		if ok && len(as.Rhs) == 1 {
+			if ce, ok := as.Rhs[0].(*ast.CallExpr); ok && len(ce.Args) == 1 {
+				if se, ok := ce.Fun.(*ast.SelectorExpr); ok {
+					if arg, ok := ce.Args[0].(*ast.SelectorExpr); ok && arg.Sel.Name == "Destination" {
+						if id, ok := arg.X.(*ast.Ident); ok && id.Name == v.Name {
+							item = "(src_" + se.Sel.Name + " (c_dst c))"
+						}
+					}
+				}
+			}
+		}
+		// the second statement writes exactly that variable under the key
+		wrote := false
+		ast.Inspect(is.Body.List[1], func(m ast.Node) bool {
+			if ce, ok := m.(*ast.CallExpr); ok {
+				if id, ok := ce.Fun.(*ast.Ident); ok && id.Name == "writeKVPair" && len(ce.Args) == 3 {
+					k, _ := strLit(ce.Args[1])
+					if a, ok := ce.Args[2].(*ast.Ident); ok && ok && len(as.Lhs) == 1 {
+						if l, ok := as.Lhs[0].(*ast.Ident); ok && l.Name == a.Name {
+							wrote = true
+							key = k
+						}
+					}
+				}
+			}
+			return true
+		})
+		if item == "" || !wrote {
+			c.fail("the value written as backup is not files.F(entry.Destination)")
+			return false
+		}
+		body = "flat_map (fun c => if " + cd + " then [" + item + "] else []) cs"
+		return false
+	})
+	if n != 1 {
+		c.fail("%d loops write backup lines", n)
+	}
+	var b strings.Builder
+	b.WriteString("(* GENERATED from /repo (arch/arch.go: the backup lines of createPkginfo) on every run by translators/strfn.go (genBackupFn) - do not edit *)\n")
+	b.WriteString("From Coq Require Import List String Bool.\nFrom Coq Require Import Strings.Byte.\nFrom NfpmV Require Import Lib.Bytes Model.Path Model.Content.\nFrom NfpmV Require Import Gen.PathFns.\nImport ListNotations.\nOpen Scope list_scope.\nOpen Scope bool_scope.\n\n")
+	if c.err != "" {
+		fmt.Fprintf(&b, "(* UNTRANSLATABLE - %s *)\nDefinition src_arch_backups (cs : list content) : list str := [].\nDefinition src_arch_backup_key : str := [].\nDefinition src_arch_backups_translated : bool := false.\n", c.err)
+	} else {
+		fmt.Fprintf(&b, "(* the values written under the key, in order *)\nDefinition src_arch_backups (cs : list content) : list str :=\n  %s.\nDefinition src_arch_backup_key : str := %s.\nDefinition src_arch_backups_translated : bool := true.\n", body, coqStr(key))
+	}
+	writeIfChanged(filepath.Join(out, "BackupFn.v"), b.String())
+}
